@@ -507,23 +507,12 @@ theorem old_columns_zero_division_iff (z r k : Bool) (o : ColumnsOpts) (measured
   rw [columnsLayout_error_iff _ o measured maxWidth p hne hp, hw]
   simp
 
-/-- Repaired `Columns(width=…)` (`max(1, …)` columns): it uses at least one column and the only input on
-which it still raises is `width + padding = 0` (the floor division itself; the drafted repair does not
-touch it). -/
-theorem columns_repaired_error_iff (z r k : Bool) (o : ColumnsOpts) (measured : List Int) (maxWidth : Int) (p : PadDims) (cwid : Int)
-    (hne : measured ≠ []) (hp : unpackPad o.padding = .ok p) (hw : o.width = some cwid) :
-    columnsLayout { zeroWidthChild := z, ruleRightRepeat := r, rstripCountsChars := k, columnsZeroCount := false } o measured maxWidth
-        = .error .zeroDivision ↔ cwid + max (p.left : Int) p.right = 0 := by
-  rw [columnsLayout_error_iff _ o measured maxWidth p hne hp, hw]
-  simp
-
-/-- Repaired `Columns`: with valid padding, at least one item, and `width + padding ≠ 0` (or no `width`
-and sound measurements) it never raises and lays the items out in at least one column. -/
+/-- Repaired `Columns` (`column_count = max(1, max_width // max(1, width + padding))`): with valid padding
+and at least one item it never raises — for every `width` option whatsoever, and without one whenever the
+items' measurements are sound — and lays the items out in at least one column. -/
 theorem columns_repaired_never_raises (z r k : Bool) (o : ColumnsOpts) (measured : List Int) (maxWidth : Int) (p : PadDims)
     (hne : measured ≠ []) (hp : unpackPad o.padding = .ok p) (hmw : 0 ≤ maxWidth)
-    (hw : match o.width with
-      | some cwid => cwid + max (p.left : Int) p.right ≠ 0
-      | none => ∀ m ∈ measured, m ≤ maxWidth) :
+    (hw : o.width = none → ∀ m ∈ measured, m ≤ maxWidth) :
     ∃ L, columnsLayout { zeroWidthChild := z, ruleRightRepeat := r, rstripCountsChars := k, columnsZeroCount := false } o measured maxWidth
         = .ok (some L) ∧ 0 < L.columnCount := by
   generalize hv : ({ zeroWidthChild := z, ruleRightRepeat := r, rstripCountsChars := k, columnsZeroCount := false } : Variant) = v
@@ -534,19 +523,14 @@ theorem columns_repaired_never_raises (z r k : Bool) (o : ColumnsOpts) (measured
     have he := (columnsLayout_error v o measured maxWidth p hne hp e).mp hres
     have hz : columnsLayout v o measured maxWidth = .error .zeroDivision := by rw [hres, he.1]
     cases ho : o.width with
-    | none =>
-      rw [ho] at hw
-      exact columnsLayout_no_zeroDivision v o measured maxWidth ho hmw hw hz
+    | none => exact columnsLayout_no_zeroDivision v o measured maxWidth ho hmw (hw ho) hz
     | some cwid =>
-      rw [ho] at hw
       rw [columnsLayout_error_iff v o measured maxWidth p hne hp, ho] at hz
-      simp only [hvz, Bool.false_eq_true, false_and, or_false] at hz
-      exact hw hz
+      simp only [hvz, Bool.false_eq_true, false_and] at hz
   | ok r' =>
     cases r' with
     | none =>
       exfalso
-      have h0 : measured.isEmpty = false := by cases measured <;> simp_all
       rw [columnsLayout_eq v o measured maxWidth p hne hp] at hres
       split at hres
       · cases hres
@@ -562,6 +546,8 @@ theorem columns_auto_width_total (v : Variant) (o : ColumnsOpts) (measured : Lis
 example : (match columnsLayout {} { width := some 30 } [3, 3] 20 with | .error .zeroDivision => true | _ => false) = true := by decide
 example : (match columnsLayout { columnsZeroCount := false } { width := some 30 } [3, 3] 20 with
     | .ok (some L) => L == ⟨1, [[some 0], [some 1]]⟩ | _ => false) = true := by decide
+example : (match columnsLayout { columnsZeroCount := false } { width := some 0, padding := [0] } [3, 3] 4 with
+    | .ok (some L) => L == ⟨4, [[some 0, some 1, none, none]]⟩ | _ => false) = true := by decide
 example : (match columnsLayout {} { columnFirst := true } [1, 1, 1, 1, 1] 5 with
     | .ok (some L) => L == ⟨3, [[some 0, some 2, some 4], [some 1, some 3, none]]⟩ | _ => false) = true := by decide
 
